@@ -27,8 +27,22 @@ func ioFaultCase(c *core.Ctx, res *core.Result, txOnly bool) {
 		res.Inconclusive = "strace not available"
 		return
 	}
+	type fk struct {
+		sys, errno string
+		onlyLog    bool
+	}
+	kinds := []fk{{"fsync", "EIO", false}, {"fsync", "EIO", true}, {"write", "ENOSPC", true}, {"write", "EIO", true}, {"fsync", "ENOSPC", false},
+		// table/manifest publication and the removal of replaced files (only database files are ever renamed or removed)
+		{"rename,renameat,renameat2", "EIO", false}, {"unlink,unlinkat", "EIO", false}}
+	k := kinds[r.Intn(len(kinds))]
+	sysName := strings.SplitN(k.sys, ",", 2)[0]
 	cfg := kv.Cfg{MemTableSize: []int64{1024, 16 * 1024, 1 << 20, 32 << 20}[r.Intn(4)], MaxMemTables: r.Range(1, 4), SyncMode: 2, CompactSecs: 3600}
 	o := kv.GenOpts{NOps: r.Range(15, 60), NKeys: r.Range(3, 10), BigValues: r.Chance(25), Maintenance: r.Range(0, 5), Tx: true, Batch: true, BigTxPct: 8}
+	if sysName != "fsync" && sysName != "write" {
+		// make sure tables are written and replaced while the program runs
+		cfg.MemTableSize = []int64{300, 1024, 4096}[r.Intn(3)]
+		o.Maintenance = r.Range(6, 14)
+	}
 	if txOnly {
 		o.TxWeight = 70
 		o.BigTxPct = 25
@@ -50,19 +64,13 @@ func ioFaultCase(c *core.Ctx, res *core.Result, txOnly bool) {
 	kv.WriteSpec(spec, specPath)
 	tracePath := filepath.Join(c.Dir, "trace.txt")
 
-	type fk struct {
-		sys, errno string
-		onlyLog    bool
-	}
-	kinds := []fk{{"fsync", "EIO", false}, {"fsync", "EIO", true}, {"write", "ENOSPC", true}, {"write", "EIO", true}, {"fsync", "ENOSPC", false}}
-	k := kinds[r.Intn(len(kinds))]
 	if k.onlyLog && len(wals) == 0 {
 		k = kinds[0]
 	}
 	// strace counts calls per thread, and the Go scheduler spreads the calls of one program over many
 	// threads: small numbers make sure the fault fires
 	when := fmt.Sprint(r.Range(1, 12))
-	if k.sys == "write" {
+	if k.sys != "fsync" {
 		when = fmt.Sprint(r.Range(1, 5))
 	}
 	if r.Chance(60) {
@@ -74,7 +82,7 @@ func ioFaultCase(c *core.Ctx, res *core.Result, txOnly bool) {
 	}
 	args = append(args, c.Self, "crashchild", specPath)
 	fdesc := fmt.Sprintf("%s fails with %s (call numbers %s per thread%s)", k.sys, k.errno, when, map[bool]string{true: ", first log file only", false: ", all database files"}[k.onlyLog])
-	feat := map[string]string{"kind": "io_fault", "syscall": k.sys, "errno": k.errno}
+	feat := map[string]string{"kind": "io_fault", "syscall": sysName, "errno": k.errno}
 	cmd := exec.Command("strace", args...)
 	var eb strings.Builder
 	cmd.Stderr = &eb
@@ -97,8 +105,8 @@ func ioFaultCase(c *core.Ctx, res *core.Result, txOnly bool) {
 	j := kv.ReadJournal(spec.Journal)
 	res.Count("io_fault_runs", 1)
 	res.Count("io_faults_injected", int64(injected))
-	res.Count("io_fault_"+k.sys+"_"+k.errno, int64(injected))
-	res.Sig = core.Sig("io", k.sys, k.errno, k.onlyLog, when, cfg.MemTableSize, len(j.Errored))
+	res.Count("io_fault_"+sysName+"_"+k.errno, int64(injected))
+	res.Sig = core.Sig("io", sysName, k.errno, k.onlyLog, when, cfg.MemTableSize, len(j.Errored))
 	if _, serr := os.Stat(spec.Journal); serr != nil {
 		st := eb.String()
 		if len(st) > 600 {
@@ -140,7 +148,7 @@ func ioFaultCase(c *core.Ctx, res *core.Result, txOnly bool) {
 	}
 	res.Count("units_acknowledged", int64(len(j.Acked)))
 	res.Count("units_failed", int64(len(failed)))
-	res.Nontrivial = injected > 0 && len(failed) > 0
+	res.Nontrivial = injected > 0 && (len(failed) > 0 || (sysName != "fsync" && sysName != "write"))
 	// what a failed unit would have left behind, per key
 	type fw struct {
 		unit int
